@@ -513,13 +513,89 @@ func checkResumeGate(r *Run, p *packages.Package, cg *CallGraph, decls map[strin
 		}
 		return false, -1
 	}
-	// success return is the last statement
-	for _, name := range []string{"readDumpCheckpoint", "validateDumpCheckpoint", "removeKnownDumpCheckpointTemps", "validateDumpCheckpointFiles"} {
-		ok, idx := has(name)
-		if ok && idx < len(list)-1 {
-			r.Pass("C19-R5-resume-gate", "loadCompatibleDumpCheckpoint:"+name, list[idx].Pos(), "error-gated before the success return")
+	_ = has
+	// The four gates of the loader, recognised by what the gated function does, not by its (private) name: it returns
+	// the checkpoint (the read); it takes the checkpoint and touches no file (the structural validation); it reaches
+	// os.Remove (stale temporaries are removed); it reaches a directory listing or a file open (the committed fragments
+	// are verified against the directory). The success return is the last statement.
+	var checkpointType types.Type
+	if fn, ok := info.Defs[fd.Name].(*types.Func); ok {
+		if res := fn.Type().(*types.Signature).Results(); res.Len() == 2 {
+			checkpointType = res.At(0).Type()
+		}
+	}
+	reachesStd := func(callee *types.Func, pred func(full string) bool) bool {
+		if callee == nil || callee.Pkg() != p.Types {
+			return false
+		}
+		found := false
+		for d := range declsReachableFrom(p, declKeyOf(callee)) {
+			if d.Body == nil || found {
+				continue
+			}
+			ast.Inspect(d.Body, func(n ast.Node) bool {
+				if c, ok := n.(*ast.CallExpr); ok {
+					if f := calleeOf(info, c); f != nil && f.Pkg() != nil && f.Pkg() != p.Types && pred(funcFullName(f)) {
+						found = true
+					}
+				}
+				return !found
+			})
+		}
+		return found
+	}
+	touchesFiles := func(full string) bool {
+		return strings.HasPrefix(full, "os.") || strings.HasPrefix(full, "path/filepath.Walk") || strings.HasPrefix(full, "io.")
+	}
+	type gateRole struct {
+		name string
+		is   func(g gate) bool
+	}
+	takesCheckpoint := func(fn *types.Func) bool {
+		sig := fn.Type().(*types.Signature)
+		for i := 0; i < sig.Params().Len(); i++ {
+			if checkpointType != nil && types.Identical(sig.Params().At(i).Type(), checkpointType) {
+				return true
+			}
+		}
+		return false
+	}
+	roles := []gateRole{
+		{"readDumpCheckpoint", func(g gate) bool {
+			fn := calleeOf(info, g.Call)
+			if fn == nil || fn.Pkg() != p.Types || checkpointType == nil {
+				return false
+			}
+			res := fn.Type().(*types.Signature).Results()
+			return res.Len() == 2 && types.Identical(res.At(0).Type(), checkpointType)
+		}},
+		{"validateDumpCheckpoint", func(g gate) bool {
+			fn := calleeOf(info, g.Call)
+			return fn != nil && fn.Pkg() == p.Types && takesCheckpoint(fn) && !reachesStd(fn, touchesFiles)
+		}},
+		{"removeKnownDumpCheckpointTemps", func(g gate) bool {
+			fn := calleeOf(info, g.Call)
+			return fn != nil && takesCheckpoint(fn) && reachesStd(fn, func(full string) bool { return full == "os.Remove" || full == "os.RemoveAll" }) &&
+				!reachesStd(fn, func(full string) bool { return full == "os.Open" || full == "os.ReadFile" })
+		}},
+		{"validateDumpCheckpointFiles", func(g gate) bool {
+			fn := calleeOf(info, g.Call)
+			return fn != nil && takesCheckpoint(fn) && reachesStd(fn, func(full string) bool {
+				return full == "os.ReadDir" || strings.HasPrefix(full, "path/filepath.Walk") || full == "os.Open" || full == "os.ReadFile"
+			})
+		}},
+	}
+	for _, role := range roles {
+		idx := -1
+		for _, g := range gates {
+			if g.Returns && g.Call != nil && role.is(g) {
+				idx = g.Index
+			}
+		}
+		if idx >= 0 && idx < len(list)-1 {
+			r.Pass("C19-R5-resume-gate", "loadCompatibleDumpCheckpoint:"+role.name, list[idx].Pos(), "error-gated before the success return")
 		} else {
-			r.Fail("C19-R5-resume-gate", "loadCompatibleDumpCheckpoint:"+name, fd.Pos(), "the resume loader can return success without passing %s: a resume then continues from an unvalidated checkpoint", name)
+			r.Fail("C19-R5-resume-gate", "loadCompatibleDumpCheckpoint:"+role.name, fd.Pos(), "the resume loader can return success without passing %s: a resume then continues from an unvalidated checkpoint", role.name)
 		}
 	}
 	// manifest-absent check: first statement is `if _, err := os.Stat(<manifest>); err == nil { return error }`
@@ -711,10 +787,8 @@ func checkCursorBeforeCommit(r *Run, p *packages.Package, fd *ast.FuncDecl) {
 			}
 			if v, ok := info.Uses[id].(*types.Var); ok {
 				if _, isSig := v.Type().Underlying().(*types.Signature); isSig && len(c.Args) >= 2 {
-					if aid, ok := ast.Unparen(c.Args[len(c.Args)-1]).(*ast.Ident); ok {
-						if cv, ok := info.Uses[aid].(*types.Var); ok && namedName(cv.Type()) == "ID" {
-							cursor = cv
-						}
+					if cv := cellOf(info, c.Args[len(c.Args)-1]); cv != nil && namedName(cv.Type()) == "ID" {
+						cursor = cv
 					}
 				}
 			}
@@ -761,7 +835,7 @@ func checkCursorBeforeCommit(r *Run, p *packages.Package, fd *ast.FuncDecl) {
 			}
 		case *ast.AssignStmt:
 			for i, l := range x.Lhs {
-				if id, ok := l.(*ast.Ident); ok && info.Uses[id] == cursor && setPos == token.NoPos {
+				if cellOf(info, l) == cursor && setPos == token.NoPos {
 					setPos = x.Pos()
 					if i < len(x.Rhs) {
 						if sel, ok := ast.Unparen(x.Rhs[i]).(*ast.SelectorExpr); ok && sel.Sel.Name == "ID" {
@@ -1027,4 +1101,26 @@ func checkPersistLast(r *Run, p *packages.Package, decls map[string]*ast.FuncDec
 	} else {
 		r.Pass("C19-R3-record-after-publish", "Dump:persist-last", loop.Body.List[last].Pos(), "nothing changes the checkpoint after the iteration's last writeDumpCheckpoint")
 	}
+}
+
+// cellOf: the variable an expression names as a storage cell — a local (`lastID`) or a field of a local struct
+// (`shard.lastID`); nil for anything else. A group of locals and the fields of one local struct are the same cells.
+func cellOf(info *types.Info, e ast.Expr) *types.Var {
+	switch x := ast.Unparen(e).(type) {
+	case *ast.Ident:
+		if v, ok := info.Uses[x].(*types.Var); ok {
+			return v
+		}
+		if v, ok := info.Defs[x].(*types.Var); ok {
+			return v
+		}
+	case *ast.SelectorExpr:
+		if sel := info.Selections[x]; sel != nil && sel.Kind() == types.FieldVal {
+			if _, ok := ast.Unparen(x.X).(*ast.Ident); ok {
+				v, _ := sel.Obj().(*types.Var)
+				return v
+			}
+		}
+	}
+	return nil
 }
